@@ -54,6 +54,11 @@ def build_pool(rng, tier):
                 vals += [rng.choice(vals)] + [0] * rng.randint(1, 2)
                 rng.shuffle(vals)
                 pool.append({"port": "pack", "args": pack_unit(a, C, vals, rng, fmt=fmt, out=rng.choice(["pst", "sums", "bincount"]))["params"]})
+        # ... and the degenerate sizes: a ONE-item list and an EMPTY list for every packer and cover (a shortcut that skips the
+        # defensive copy for "nothing to sort" inputs shows here)
+        for a in ["ff", "ffd", "bf", "bfd", "bc", "cover_dec", "cover_23", "cover_34"]:
+            for vals in ([rng.randint(1, 9)], [rng.randint(10, 15)], []):
+                pool.append({"port": "pack", "args": pack_unit(a, 10, vals, rng, fmt="list", out=rng.choice(["pst", "sums"]))["params"]})
         for a in ["greedy", "roundrobin", "bidir", "multifit", "kk", "cg", "ckk", "snp", "dp", "cbldm"]:
             for fmt in ["list", "names_valueof"]:
                 vals = [rng.randint(1, 30) for _ in range(rng.randint(2, 5))]
